@@ -23,5 +23,23 @@ M += [
  ("w06_wasm_totp_window_forward_only", ["C20"], W, "\tfor i := -int64(skew); i <= int64(skew); i++ {\n\t\tvalid, err := otp.ValidateOTPWasm(code, secretBuf, counter+uint64(i), digits, algo)", "\tfor i := int64(0); i <= int64(skew); i++ {\n\t\tvalid, err := otp.ValidateOTPWasm(code, secretBuf, counter+uint64(i), digits, algo)"),
  ("w07_wasm_validate_short_compare", ["C20"], "validate_wasm.go", "\tif len(code) != digitInt {\n\t\treturn false, ErrInvalidCodeLength\n\t}\n", "\tif len(code) > digitInt {\n\t\treturn false, ErrInvalidCodeLength\n\t}\n\tif len(code) < digitInt {\n\t\tcode = code + \"0\"\n\t}\n"),
 ]
-EXTRA = {}
+V = "validate.go"
+CT = "\tif subtle.ConstantTimeCompare([]byte(code), []byte(expected)) == 1 {\n\t\treturn true, nil\n\t}\n"
+M += [
+ ("t01_compare_with_equals", ["C09"], V, CT, "\tif code == expected {\n\t\treturn true, nil\n\t}\n\t_ = subtle.ConstantTimeCompare\n"),
+ ("t02_compare_with_bytes_equal", ["C09"], V, CT, "\tif bytes.Equal([]byte(code), []byte(expected)) {\n\t\treturn true, nil\n\t}\n\t_ = subtle.ConstantTimeCompare\n"),
+ ("t03_compare_with_early_exit_loop", ["C09"], V, CT, "\tsame := true\n\tfor i := 0; i < len(code); i++ {\n\t\tif code[i] != expected[i] {\n\t\t\tsame = false\n\t\t\tbreak\n\t\t}\n\t}\n\tif same {\n\t\treturn true, nil\n\t}\n\t_ = subtle.ConstantTimeCompare\n"),
+ ("t04_compare_with_equalfold", ["C09"], V, CT, "\tif strings.EqualFold(code, expected) {\n\t\treturn true, nil\n\t}\n\t_ = subtle.ConstantTimeCompare\n"),
+ ("t05_wasm_compare_with_equals", ["C09"], "validate_wasm.go", "\tif subtle.ConstantTimeCompare([]byte(code), []byte(excepted)) == 1 {", "\t_ = subtle.ConstantTimeCompare\n\tif code == excepted {"),
+ ("t06_first_char_precheck", ["C09"], V, CT, "\tif code[0] != expected[0] {\n\t\treturn false, ErrInvalidCode\n\t}\n" + CT),
+ ("t07_rest_handler_precheck", ["C09"], H, "\t\tok, _ := otp.ValidateHOTP(req.Secret, req.Code, req.Counter, &otp.Param{", "\t\tif want, gerr := otp.GenerateHOTP(req.Secret, req.Counter, &otp.Param{Algorithm: algo, Digits: digits}); gerr == nil && strings.HasPrefix(want, req.Code[:1]) {\n\t\t\tctx.Response.Header.Set(\"X-Near\", \"1\")\n\t\t}\n\t\tok, _ := otp.ValidateHOTP(req.Secret, req.Code, req.Counter, &otp.Param{"),
+ ("t08_hasprefix_fast_reject", ["C09"], V, CT, "\tif !strings.HasPrefix(expected, code[:2]) {\n\t\treturn false, ErrInvalidCode\n\t}\n" + CT),
+ ("t09_ordering_compare", ["C09"], V, CT, "\tif strings.Compare(code, expected) == 0 {\n\t\treturn true, nil\n\t}\n\t_ = subtle.ConstantTimeCompare\n"),
+]
+EXTRA = {
+ "t02_compare_with_bytes_equal": (V, "import (\n\t\"crypto/subtle\"\n)", "import (\n\t\"bytes\"\n\t\"crypto/subtle\"\n)"),
+ "t04_compare_with_equalfold": (V, "import (\n\t\"crypto/subtle\"\n)", "import (\n\t\"crypto/subtle\"\n\t\"strings\"\n)"),
+ "t08_hasprefix_fast_reject": (V, "import (\n\t\"crypto/subtle\"\n)", "import (\n\t\"crypto/subtle\"\n\t\"strings\"\n)"),
+ "t09_ordering_compare": (V, "import (\n\t\"crypto/subtle\"\n)", "import (\n\t\"crypto/subtle\"\n\t\"strings\"\n)"),
+}
 FIRST = {"r05_rest_decode_error_status_200"}
